@@ -221,10 +221,18 @@ PROPS["C08"] = {
           bounds="reader enum {a,b,c} with and without default b; writer symbol a / c / z (absent) in Enum(i, s) form with every u32 writer index and in String form"),
         H("c08::union_branch_selection", functions=C08_FUNCS + ["apache_avro::types::Value::resolve_union", "apache_avro::schema::union::UnionSchema::find_schema_with_known_schemata"],
           bounds="reader union [null,long,string]; written Null, Long, Int (promoted), String, Union(1,Long); all i32 payloads; values with no matching branch are outside (not decided within the cap)"),
+        H("c08::record_reorder_drop", functions=C08_FUNCS + ["apache_avro::types::Value::resolve_record"],
+          bounds="writer record {a: long, b: boolean, c: long} read as {b: boolean, a: long}: fields matched by name in reader order, writer-only field dropped; all payloads"),
+        H("c08::record_default_long", functions=C08_FUNCS + ["apache_avro::types::Value::resolve_record"],
+          bounds="reader-only long field with JSON default 5; written field all i64"),
+        H("c08::record_default_null_union", functions=C08_FUNCS + ["apache_avro::types::Value::resolve_record"],
+          bounds="reader-only union [null,long] field with default null -> Union(0, Null); written field all i64"),
+        H("c08::record_missing_default", functions=C08_FUNCS + ["apache_avro::types::Value::resolve_record"],
+          bounds="reader-only field without default: error; written field all i64"),
         H("c08::finding_long_to_int", functions=C08_FUNCS, bounds="writer long read as int, all i64", expect_fail=True),
         H("c08::finding_double_to_float", functions=C08_FUNCS, bounds="writer double read as float, all f64", expect_fail=True),
     ],
-    "outside": "record evolution (field matching by name/alias, defaults from JSON), the error case of union branch selection, array/map item promotion, logical types, idempotence of resolve: the leaf promotion matrix, enum symbol mapping (three-symbol reader) and union branch selection on [null,long,string] are decided. Strings/bytes longer than 2 bytes (so the textual NaN/INF float forms are outside).",
+    "outside": "record evolution beyond the four listed shapes (aliases, defaults of other types; a union default whose first branch is not null is not decided within the cap: the library boxes a value that came through a Result and symex loses its kind), the error case of union branch selection, array/map item promotion, logical types, idempotence of resolve: the leaf promotion matrix, enum symbol mapping (three-symbol reader) and union branch selection on [null,long,string] are decided. Strings/bytes longer than 2 bytes (so the textual NaN/INF float forms are outside).",
     "assumptions": ["the promotion table in the harness (spec_resolve) is transcribed from the Avro 1.11 specification, section Schema Resolution"],
 }
 
